@@ -64,7 +64,7 @@ def batches(tier, seed):
             res.append(dict(args=["--seed", _seed(seed, i), "--cases", "1500", "--tier", tier], tag="g%d" % i, timeout=300))
         return res
     for i in range(12):
-        res.append(dict(args=["--seed", _seed(seed, i), "--cases", "15000", "--tier", tier], tag="g%d" % i, timeout=3000))
+        res.append(dict(args=["--seed", _seed(seed, i), "--cases", "10000", "--tier", tier], tag="g%d" % i, timeout=3000))
     for kind, n in (("al1", 7 ** 6), ("al2", 7 ** 6), ("al3", 7 ** 6), ("sl", 10 ** 5), ("lru", 8 ** 5),
                     ("al2c", 10 ** 5), ("al3c", 10 ** 5), ("lruc", 10 ** 5), ("bv65", 12 ** 4), ("bv129r", 12 ** 3)):
         res.append(dict(args=["--enum", kind, "--cases", str(n), "--tier", tier], tag="enum_" + kind, timeout=3000))
